@@ -3,6 +3,7 @@ package harness
 import (
 	"context"
 	"fmt"
+	"strings"
 
 	"github.com/tychoish/fun/pubsub"
 	"verif/simrt"
@@ -14,6 +15,20 @@ func dequeStep(state string, in, out any) []string {
 	i := in.(qIn)
 	if _, pend := out.(Pending); pend {
 		return same(s)
+	}
+	if strings.HasPrefix(i.Op, blockedPrefix) {
+		// observation (C07): the operation was blocked at quiescence
+		switch strings.TrimPrefix(i.Op, blockedPrefix) {
+		case "WaitPushFront", "WaitPushBack", "Send":
+			if !s.closed && s.capacity() <= len(s.items) {
+				return same(s)
+			}
+		case "WaitFront", "WaitBack", "Receive":
+			if !s.closed && len(s.items) == 0 {
+				return same(s)
+			}
+		}
+		return nil
 	}
 	o := out.(qOut)
 	if o.Err == "ctx" {
@@ -55,6 +70,33 @@ func dequeStep(state string, in, out any) []string {
 			return nil
 		}
 		front := i.Op == "ForcePushFront"
+		if s.kind == 2 {
+			// queue-options tracker: "at capacity" is the (moving) soft quota,
+			// which is what the blocking pushes wait for as well. A Force push
+			// on an open deque always succeeds: by evicting exactly one item
+			// from the opposite end when the deque is at capacity, or as a
+			// plain (possibly credit-funded) push. Both are accepted when both
+			// are possible, so the model does not depend on which of the two
+			// readings of "full" an implementation takes.
+			var outs []string
+			if n := len(s.items); n > 0 && n >= s.capacity() {
+				ev := s
+				if front {
+					_, ev = ev.popBack()
+				} else {
+					_, ev = ev.popFront()
+				}
+				if cls, ns := ev.admit(); cls == "" {
+					outs = append(outs, push(front, ns).enc())
+				}
+			}
+			if cls, ns := s.admit(); cls == "" {
+				if e := push(front, ns).enc(); len(outs) == 0 || outs[0] != e {
+					outs = append(outs, e)
+				}
+			}
+			return outs
+		}
 		if s.kind == 1 && len(s.items) >= s.hard {
 			// "evicts exactly one item from the opposite end and then succeeds"
 			if front {
@@ -130,11 +172,12 @@ func dequeStep(state string, in, out any) []string {
 	return nil
 }
 
-func c06Run(w *W) {
+func c06Run(w *W) { c06RunMode(w, false) }
+
+func c06RunMode(w *W, liveness bool) {
 	h := &Hist{}
 	var dq *pubsub.Deque[int]
 	init := qState{}
-	quota := false
 	switch simrt.Choose(4) {
 	case 0:
 		dq = pubsub.NewUnlimitedDeque[int]()
@@ -149,7 +192,6 @@ func c06Run(w *W) {
 		sq := 1 + simrt.Choose(hl)
 		dq, _ = pubsub.NewDeque[int](pubsub.DequeOptions{QueueOptions: &pubsub.QueueOptions{HardLimit: hl, SoftQuota: sq}})
 		init = qState{kind: 2, hard: hl, soft: sq, credit: float64(sq)}
-		quota = true
 		w.Config("quota hard=%d soft=%d", hl, sq)
 	}
 	d := dq.Distributor()
@@ -172,9 +214,6 @@ func c06Run(w *W) {
 			kind := simrt.Choose(16)
 			if kind == 15 && !(w.faulty() && simrt.Choose(3) == 0) {
 				kind = 0
-			}
-			if quota && (kind == 4 || kind == 5) {
-				kind -= 4 // Force pushes are specified for capacity deques only
 			}
 			next++
 			v := next
@@ -270,6 +309,11 @@ func c06Run(w *W) {
 		}
 	}
 	simrt.Quiesce()
+	if liveness {
+		if n := h.ObserveBlocked(func(op string) any { return qIn{Op: op} }, func(in any) string { return in.(qIn).Op }); n > 0 {
+			w.Probe("blocked-at-quiescence")
+		}
+	}
 	w.State(fmt.Sprintf("deque len=%d", min(dq.Len(), 5)))
 	for _, b := range calls {
 		b.cancel()
@@ -278,6 +322,10 @@ func c06Run(w *W) {
 	w.hist = h.Strings()
 	w.After = func(res *simrt.Result) {
 		if res.Budget {
+			return
+		}
+		if liveness {
+			checkBlockedAtQuiescence(w, h, init.enc(), dequeStep, func(in any) bool { return strings.HasPrefix(in.(qIn).Op, blockedPrefix) }, "Deque")
 			return
 		}
 		CheckLin(w, h, init.enc(), dequeStep, "non-linearizable:Deque")
